@@ -338,11 +338,20 @@ class CLMid(Component):
         s.foo.enq //= s.enq
         s.foo.deq //= s.deq
         s.seen = []
+        s.idle = 0
 
         @update_once
         def up_peek():
             if s.foo.peek.rdy():
                 s.seen.append(s.foo.peek())
+
+        @update_once
+        def up_idle():
+            s.idle += 1
+
+        # method constraint declared by the parent on a method port of the grand-child (up_idle is
+        # otherwise unconstrained, so no palette class contradicts it)
+        s.add_constraints(M(s.foo.enq) < U(up_idle))
 
 
 class ClTop(Component):
